@@ -36,6 +36,9 @@ PROPS["C02"] = dict(
         "Zrnt.Proofs.C02.historical_eq",
         "Zrnt.Proofs.C02.participation_rotation_eq",
         "Zrnt.Proofs.C02.syncCommittee_rotation_eq",
+        "Zrnt.Proofs.C02.WF_preserved_epoch",
+        "Zrnt.Proofs.C02.flat_snapshot_sound_slashings",
+        "Zrnt.Proofs.C02.slashings_snapshot_eq",
         "Zrnt.Proofs.C02.rewards_phase0_eq",
         "Zrnt.Proofs.C02.attestationDeltas_phase0_eq",
         "Zrnt.Proofs.C02.targetStakes_phase0_eq",
